@@ -312,6 +312,36 @@ func c09(r *mon.Run) {
 				t.Count("calls in a grammar context with a value expected")
 			}
 		}}
+	// every argument of every call template handed over by another construct (a parenthesis, `@.`, an index into a multi-select, a
+	// member of a multi-select hash, a pipe, not_null, ||, &&, a projection, a slice, a flatten, map, a double reverse, to_array, a
+	// filter that keeps everything, values() of a one-member hash, max_by over a one-element list): the function sees the value the
+	// construct yields (for an array that may be a copy without its nulls), never something the construct left half-built
+	producers := argProducers()
+	pcalls := c06Calls(false, cbase)
+	type pcase struct{ call, arg, prod int }
+	var pcs []pcase
+	for ci, c := range pcalls {
+		for ai, a := range c.Items {
+			if a.K == gen.KExpRef {
+				continue
+			}
+			for pi := range producers {
+				pcs = append(pcs, pcase{ci, ai, pi})
+			}
+		}
+	}
+	prodw := mon.Workload{Name: "arguments-produced-by-other-constructs", N: len(pcs), Batch: 500,
+		Do: func(i int, t *mon.Tally) {
+			c := pcs[i]
+			tree := gen.Clone(pcalls[c.call])
+			tree.Items[c.arg] = producers[c.prod](tree.Items[c.arg])
+			cx := &caseCtx{r, t, "arguments-produced-by-other-constructs", i}
+			res, _, _ := cx.runBoth(tree, gen.Spell(tree), cbase)
+			if !isErr(res) && !res.DontCare && res.Skipped == "" {
+				t.Nontrivial("prod:" + strconv.Itoa(i))
+				t.Count("calls with a produced argument and a value expected")
+			}
+		}}
 	// string relations: every ordered pair of strings chosen for how they relate (prefix, suffix, infix, equal, longer
 	// needle than haystack, overlapping repeats, the separator inside an element, multi-byte boundaries, 300-byte runs)
 	long := strings.Repeat("ab", 150)
@@ -726,7 +756,7 @@ func c09(r *mon.Run) {
 				t.Count("by-functions over lists with nulls: value expected")
 			}
 		}}
-	r.Exec(exh, typed, every, strw, trw, akw, kindPairsWorkload(r, "C09"), ctx, large, sizedWorkload(r, "sized-arrays", false), reuse, nullw, edgew, cuw, zsw)
+	r.Exec(exh, typed, every, strw, trw, akw, kindPairsWorkload(r, "C09"), ctx, large, sizedWorkload(r, "sized-arrays", false), reuse, nullw, edgew, cuw, zsw, prodw)
 }
 
 // c09ReuseTrees: calls nested in the arguments of other calls (and in expression references, projections,
@@ -781,4 +811,42 @@ func c09ReuseDoc(j int) map[string]interface{} {
 		doc["s"] = []interface{}{"s"}
 	}
 	return doc
+}
+
+// argProducers: constructs that hand a value on to a function argument (see the C09 workload arguments-produced-by-other-constructs).
+func argProducers() []func(x *gen.Expr) *gen.Expr {
+	return []func(x *gen.Expr) *gen.Expr{
+		func(x *gen.Expr) *gen.Expr { return gen.Paren(x) },
+		func(x *gen.Expr) *gen.Expr { return gen.Pipe(gen.Current(), x) },
+		func(x *gen.Expr) *gen.Expr { return gen.Chain(gen.MultiList(x), gen.StIndex(0)) },
+		func(x *gen.Expr) *gen.Expr {
+			return gen.Chain(gen.MultiHash(keyA("k"), []*gen.Expr{x}), gen.StField("k"))
+		},
+		func(x *gen.Expr) *gen.Expr { return gen.Pipe(x, gen.Current()) },
+		func(x *gen.Expr) *gen.Expr { return gen.Func("not_null", x) },
+		func(x *gen.Expr) *gen.Expr { return gen.Func("not_null", gen.Field("z"), x) },
+		func(x *gen.Expr) *gen.Expr { return gen.Or(gen.Field("z"), x) },
+		func(x *gen.Expr) *gen.Expr { return gen.And(gen.LitJSON("true"), x) },
+		func(x *gen.Expr) *gen.Expr { return gen.Chain(x, gen.StListStar()) },
+		func(x *gen.Expr) *gen.Expr { return gen.Chain(x, gen.StSliceS("", "", "")) },
+		func(x *gen.Expr) *gen.Expr {
+			return gen.Chain(x, gen.StSliceS("", "", "-1"), gen.StSliceS("", "", "-1"))
+		},
+		func(x *gen.Expr) *gen.Expr { return gen.Chain(x, gen.StFlatten()) },
+		func(x *gen.Expr) *gen.Expr { return gen.Func("map", gen.ExpRef(gen.Current()), x) },
+		func(x *gen.Expr) *gen.Expr { return gen.Func("reverse", gen.Func("reverse", x)) },
+		func(x *gen.Expr) *gen.Expr { return gen.Func("to_array", x) },
+		func(x *gen.Expr) *gen.Expr { return gen.Chain(x, gen.StFilter(gen.LitJSON("true"))) },
+		func(x *gen.Expr) *gen.Expr {
+			return gen.Chain(gen.Func("values", gen.MultiHash(keyA("k"), []*gen.Expr{x})), gen.StIndex(0))
+		},
+		func(x *gen.Expr) *gen.Expr { return gen.Func("max_by", gen.MultiList(x), gen.ExpRef(gen.LitJSON("1"))) },
+		func(x *gen.Expr) *gen.Expr {
+			return gen.Chain(gen.Paren(gen.Chain(x, gen.StListStar())), gen.StSliceS("0", "", ""))
+		},
+		func(x *gen.Expr) *gen.Expr { return gen.Func("merge", x) },
+		func(x *gen.Expr) *gen.Expr { return gen.Func("sort_by", x, gen.ExpRef(gen.LitJSON("0"))) },
+		func(x *gen.Expr) *gen.Expr { return gen.Chain(gen.MultiList(gen.LitJSON("null"), x), gen.StIndex(-1)) },
+		func(x *gen.Expr) *gen.Expr { return gen.Chain(gen.Field("ao"), gen.StIndex(9), gen.StMultiList(x)) }, // null: a multi-select on null
+	}
 }
